@@ -5,6 +5,8 @@ import Ledger.Proofs.MachineBal
     asset, balances change by the credits only. -/
 namespace Ledger.Machine
 
+variable {cfg : Cfg}
+
 /-- Amounts received by `a` in a posting list. -/
 def inTo (a : String) : List Posting → Int
   | [] => 0
